@@ -370,13 +370,24 @@ func baseName(ref string) string {
 	return ref
 }
 
+type cv struct {
+	how string
+	val claim
+}
+
 // listPerturb: order, duplicates and length of the list-valued fields
 func (r *run) listPerturb(g *gen, k *kind, base claim, hb, vb, lb string) {
+	for _, v := range listVariants(k, base) {
+		r.out.Count("perturb:list:" + v.how)
+		r.variant(g, k, v.how, base, hb, vb, lb, v.val)
+	}
+}
+
+func listVariants(k *kind, base claim) (out []cv) {
 	try := func(how string, f func(c claim) bool) {
 		v := k.clone(base)
 		if f(v) {
-			r.out.Count("perturb:list:" + how)
-			r.variant(g, k, how, base, hb, vb, lb, v)
+			out = append(out, cv{how, v})
 		}
 	}
 	switch base.(type) {
@@ -483,6 +494,7 @@ func (r *run) listPerturb(g *gen, k *kind, base claim, hb, vb, lb string) {
 			return true
 		})
 	}
+	return out
 }
 
 // ---------------------------------------------------------------------------------------------------------
